@@ -180,10 +180,13 @@ func c09ReadFrame(c *Ctx) {
 			cmpFact(vFieldLoad("WALReader.chksum2", nil), token.EQL, vU32At(hdr, 20), "r.chksum2 == hdr[20:]"))
 	}
 	// running checksum: seeded from the reader, over hdr[:8] then the page, stored back before the comparison
-	ws := callsTo(fn, nameIs("ls.WALChecksum"))
-	c.floor(rule, len(ws), 2, "WALChecksum calls in readFrame")
+	vws := callSitesV(fn, nameIs("ls.WALChecksum"))
+	c.floor(rule, len(vws), 2, "WALChecksum calls in readFrame")
 	sawHdr, sawData := false, false
-	for _, w := range ws {
+	var ws []ssa.CallInstruction
+	for _, vw := range vws {
+		w := vw.Call()
+		ws = append(ws, w)
 		a := w.Common().Args
 		if len(a) != 4 {
 			continue
@@ -205,7 +208,7 @@ func c09ReadFrame(c *Ctx) {
 		for i, f := range []string{"WALReader.chksum1", "WALReader.chksum2"} {
 			res := resultOf(w, i)
 			stored := false
-			for _, st := range storesToField(fn, f) {
+			for _, st := range storesToFieldDeep(fn, f) {
 				if res != nil && vIs(res)(st.Val) {
 					stored = true
 				}
@@ -213,15 +216,28 @@ func c09ReadFrame(c *Ctx) {
 			c.check(stored, rule, fmt.Sprintf("%s: WALChecksum(%s) result %d stored to %s", fnName(fn), over, i, f), c.pos(w), "stored", "checksum word is not written back to the reader")
 		}
 		// only on the verifying path
-		c.requireGuard(rule, fn, Site{w, "running checksum update over " + over}, truthFact(verify, true, "verifyChecksum"))
+		vw.Desc = "running checksum update over " + over
+		c.requireGuardV(rule, fn, vw, truthFact(verify, true, "verifyChecksum"))
 	}
 	c.check(sawHdr && sawData, rule, fnName(fn)+": checksum covers frame header[:8] and page data", c.P.Pos(fn.Pos()), "both steps present", "the cumulative checksum does not cover both the frame header prefix and the page")
 	// comparison happens after the update: every checksum compare edge is dominated by both updates
-	for _, e := range factEdges(fn, cmpFact(vFieldLoad("WALReader.chksum1", nil), token.EQL, vU32At(hdr, 16), "")) {
-		for _, w := range ws {
-			c.check(dominates(w, lastInstr(e.From)), rule, fnName(fn)+": checksum comparison follows the update", c.pos(lastInstr(e.From)), "dominated by update", "checksum compared before it is updated")
+	cmpPat := cmpFact(vFieldLoad("WALReader.chksum1", nil), token.EQL, vU32At(hdr, 16), "")
+	nCmp := 0
+	for _, g := range deepFuncs(fn) {
+		for _, b := range g.Blocks {
+			for _, in := range b.Instrs {
+				bo, isB := in.(*ssa.BinOp)
+				if !isB || (bo.Op != token.EQL && bo.Op != token.NEQ) || !cmpPat.holds(Fact{L: bo.X, R: bo.Y, Op: token.EQL}) {
+					continue
+				}
+				nCmp++
+				for _, w := range ws {
+					c.check(dominates(w, bo), rule, fnName(fn)+": checksum comparison follows the update", c.pos(bo), "dominated by update", "checksum compared before it is updated")
+				}
+			}
 		}
 	}
+	c.floor(rule, nCmp, 1, "comparisons of the running checksum with the frame's stored checksum")
 	// returned page number / commit come from the frame header
 	for _, r := range succ {
 		if len(r.Results) >= 2 {
@@ -289,11 +305,25 @@ func c09PageMap(c *Ctx, prop string) {
 	}
 	// (i) every update of the returned map is commit-gated
 	n := 0
+	// a write to the returned map: m[k] = v, or the library forms maps.Copy(m, …) / maps.Insert(m, …)
+	isMapWrite := func(in ssa.Instruction) bool {
+		if mu, ok := in.(*ssa.MapUpdate); ok {
+			return isRet(mu.Map)
+		}
+		if call, ok := in.(ssa.CallInstruction); ok {
+			switch calleeName(call) {
+			case "maps.Copy", "maps.Insert":
+				a := call.Common().Args
+				return len(a) >= 1 && isRet(a[0])
+			}
+		}
+		return false
+	}
 	for _, b := range fn.Blocks {
 		for _, in := range b.Instrs {
-			if mu, ok := in.(*ssa.MapUpdate); ok && isRet(mu.Map) {
+			if isMapWrite(in) {
 				n++
-				c.requireGuard(rule, fn, Site{mu, "update of the returned page map"}, committed)
+				c.requireGuard(rule, fn, Site{in, "update of the returned page map"}, committed)
 			}
 		}
 	}
@@ -317,8 +347,8 @@ func c09PageMap(c *Ctx, prop string) {
 			// and no page map update either
 			for _, b := range fn.Blocks {
 				for _, in := range b.Instrs {
-					if mu, ok := in.(*ssa.MapUpdate); ok && isRet(mu.Map) && r[b] {
-						c.fail(rule, fnName(fn)+": no page-map update after a failed ReadFrame", c.pos(mu), "page map updated on a path that follows a validation failure")
+					if isMapWrite(in) && r[b] {
+						c.fail(rule, fnName(fn)+": no page-map update after a failed ReadFrame", c.pos(in), "page map updated on a path that follows a validation failure")
 					}
 				}
 			}
@@ -408,6 +438,47 @@ func c09PageMap(c *Ctx, prop string) {
 			}
 		}
 		c.check(isKey, rule, fnName(fn)+": trim iterates over the page map's own keys", c.pos(call), "range key of the returned map", "deleted key does not range over the returned map")
+	}
+	// the library form: maps.DeleteFunc(m, func(pgno, _) bool { return pgno > commit })
+	for _, call := range callsTo(fn, nameIs("maps.DeleteFunc")) {
+		a := call.Common().Args
+		if len(a) != 2 || !isRet(a[0]) {
+			continue
+		}
+		nDel++
+		okPred := false
+		if mc, isMC := a[1].(*ssa.MakeClosure); isMC {
+			if g, isF := mc.Fn.(*ssa.Function); isF && len(g.Params) >= 1 {
+				okPred = true
+				nRet := 0
+				for _, r := range returns(g) {
+					if len(r.Results) != 1 {
+						okPred = false
+						continue
+					}
+					for _, o := range origins(r.Results[0]) {
+						nRet++
+						b, isB := o.(*ssa.BinOp)
+						if !isB {
+							okPred = false
+							continue
+						}
+						gt := b.Op == token.GTR && b.X == ssa.Value(g.Params[0]) && anyOrigin(commitFld)(b.Y)
+						lt := b.Op == token.LSS && b.Y == ssa.Value(g.Params[0]) && anyOrigin(commitFld)(b.X)
+						if !gt && !lt {
+							okPred = false
+						}
+					}
+				}
+				okPred = okPred && nRet > 0
+			}
+		}
+		c.check(okPred, rule, fnName(fn)+": trim predicate deletes exactly the keys with pgno > commit (last commit frame's size field)", c.pos(call), "pgno > commit", "the trim predicate is not `pgno > commit`")
+		for _, r := range returns(fn) {
+			if len(r.Results) > 0 && isRet(r.Results[0]) {
+				c.check(dominates(call, r), rule, fnName(fn)+": trim loop precedes every return of the page map", c.pos(r), "dominated by the trim loop", "a return of the page map bypasses the trim of pages above commit")
+			}
+		}
 	}
 	c.floor(rule, nDel, 1, "trim of pages above commit (delete on the returned map)")
 	// (v) maxOffset = end of the last *committed* frame: max over the returned map's offsets + frame size
@@ -536,15 +607,17 @@ func c09SyncReader(c *Ctx) {
 	if fn == nil {
 		return
 	}
-	cs := callsTo(fn, nameIs("ls.NewWALReaderWithOffset"))
+	cs := callSitesV(fn, nameIs("ls.NewWALReaderWithOffset"))
 	c.floor(rule, len(cs), 1, "NewWALReaderWithOffset call in (*DB).sync")
-	for _, call := range cs {
+	for _, vs := range cs {
+		call := vs.Call()
 		ok := vFieldLoad("syncInfo.offset", nil)(namedArg(call, "offset")) &&
 			vFieldLoad("syncInfo.salt1", nil)(namedArg(call, "salt1")) &&
 			vFieldLoad("syncInfo.salt2", nil)(namedArg(call, "salt2"))
 		c.check(ok, rule, fnName(fn)+": WAL reader resumes at info.offset with info.salt1/info.salt2", c.pos(call), "arguments are the verified cursor", "the WAL reader is not created at the verified cursor with the LTX header's salts")
 		// and only when the cursor is past the header
-		c.requireGuard(rule, fn, Site{call, "NewWALReaderWithOffset"}, cmpFact(vFieldLoad("syncInfo.offset", nil), token.NEQ, vConstInt(32), "info.offset != WALHeaderSize"))
+		vs.Desc = "NewWALReaderWithOffset"
+		c.requireGuardV(rule, fn, vs, cmpFact(vFieldLoad("syncInfo.offset", nil), token.NEQ, vConstInt(32), "info.offset != WALHeaderSize"))
 	}
 	// page map is built from that reader
 	pm := callsTo(fn, nameIs("(*ls.WALReader).pageMap"))
